@@ -14,6 +14,12 @@ ENGINES = [
 NOTES = "Property-based testing and fuzzing only. See DESIGN.md. Known findings: /verif/known_findings.json."
 NOT_APPLICABLE = {}
 CHECKS = {
+    "C07": {
+        "text": "Targeted generation: 12 definition forms (fin or mutable) x 4 assignment operators x 12 positions x 0-2 shadowing re-definitions, plus assignment to undefined names; verdict oracle: reject iff the visible definition, the receiver or self is fin, or the name is undefined. ~11k cases per quick run.",
+        "design_ref": "DESIGN.md section 6 C07",
+        "note": "For-loop variables and mutating method calls on fin receivers are not judged. One open finding family (fin fields are not protected) redirects three definition forms.",
+        "technique": "property-based testing: definition-form x assignment-position matrix with a visibility-based verdict oracle (Hypothesis)",
+    },
     "C06": {
         "text": "Enumerated matrix inside generated surroundings: 11 consuming positions x 5 sources of null x 4 types for the reject direction, 8 positions x 4 flows x 4 types for the accept direction, each planted at one of 12 statement positions; ~8k cases per quick run, verdict oracle in both directions, matrix counts in the evidence.",
         "design_ref": "DESIGN.md section 6 C06",
